@@ -59,7 +59,10 @@ def interface_contracts():
                  "fail_monotone": "self.matcher.csvpath._is_valid == (old(self.matcher.csvpath._is_valid) and not self.g_fails)"},
         returns="optbool", class_fields=CF, native={"callee_default": True},
         assumptions=["a match component, when evaluated, returns its vote for the line and may call stop()/skip()/fail(); "
-                     "it never un-stops, un-skips or re-validates (Stop/Skip/Fail are under their own contracts in C13/C04)"]))
+                     "it never un-stops, un-skips or re-validates (Stop/Skip/Fail are under their own contracts in C13/C04)",
+                     "a match component does not evaluate its sibling components. NOT true of an onmatch-qualified component, whose Qualified.line_matches() "
+                     "walks every expression itself: the clauses of Matcher.matches about what runs after a stop/skip hold for programs without an onmatch "
+                     "component placed before the stop/skip (see the C13 KNOWN-FINDING; bounded_C13 exercises exactly that case)"]))
     cs.append(Contract(
         target=f"{MATCHER}::Matcher.clear_errors", interface=True, types={},
         modifies=["self.g_clear_errors_calls"],
